@@ -505,8 +505,12 @@ class Module(HasAccessibles):
         if not pobj.hasDatatype():
             self.errors.append(f'{pname} needs a datatype')
             return
-        if pobj.value is None and pobj.default is None and pobj.constant is not None:
-            # a constant is known from the beginning: do not report it as 'not initialized' on activate
+        if pobj.constant is not None:
+            # a constant is known from the beginning: do not report it as 'not initialized' on
+            # activate, and do not show a default of the class instead of a configured constant
+            if pobj.value is not None:
+                self.errors.append(f'{pname}: a value can not be given for a constant')
+                return
             pobj.default = pobj.constant
         if pobj.value is None:
             if pobj.needscfg:
